@@ -71,6 +71,37 @@ func c17StructFacts(n ast.Node, what string) c17RecFacts {
 	return out
 }
 
+// c17ScoreType: `type zsetScore T` and the string constants inside `func (zsetScore) MarshalJSON` (written as
+// []byte(`"inf"`) — the JSON quotes are stripped)
+func c17ScoreType() (string, []string) {
+	f := parse(c17DecodeRel)
+	if f == nil {
+		return "", nil
+	}
+	under := ""
+	for _, d := range f.Decls {
+		if gd, ok := d.(*ast.GenDecl); ok && gd.Tok == token.TYPE {
+			for _, sp := range gd.Specs {
+				if ts, ok := sp.(*ast.TypeSpec); ok && ts.Name.Name == "zsetScore" {
+					under = srcOf(ts.Type)
+				}
+			}
+		}
+	}
+	var spell []string
+	if fd := funcDecl(c17DecodeRel, "zsetScore", "MarshalJSON"); fd != nil && fd.Body != nil {
+		ast.Inspect(fd.Body, func(n ast.Node) bool {
+			if bl, ok := n.(*ast.BasicLit); ok && bl.Kind == token.STRING {
+				if v, ok := evalStr(bl, nil); ok {
+					spell = append(spell, leanStr(strings.Trim(v, "\"")))
+				}
+			}
+			return true
+		})
+	}
+	return under, spell
+}
+
 func genC17() {
 	fd := funcDecl(c17DecodeRel, "CmdDecode", "decoderMain")
 	var b strings.Builder
@@ -175,6 +206,10 @@ func genC17() {
 	if lo < 0 || hi < 0 || sub < 0 {
 		fail("%s: toText's `case c >= LO && c <= HI` / default substitute not recognised", c17DecodeRel)
 	}
+	// the score type of the sorted-set line: `type zsetScore float64` with a MarshalJSON that spells the non-finite values
+	under, spell := c17ScoreType()
+	fmt.Fprintf(&b, "/-- underlying type of `zsetScore` (\"\" = no such type) and the string literals its MarshalJSON returns, in source order -/\n")
+	fmt.Fprintf(&b, "def zsetScoreUnderlying : String := %s\ndef zsetScoreSpellings : List String := [%s]\n\n", leanStr(under), strings.Join(spell, ", "))
 	fmt.Fprintf(&b, "/-- toText of decoderMain keeps bytes in [decodeTextLo, decodeTextHi] and writes decodeTextSub otherwise -/\n")
 	nat := func(v int64) int64 { // (a value that was not found is reported through fail(); the file must still be valid Lean)
 		if v < 0 {
